@@ -105,11 +105,11 @@ seq_t dtw_distance(seq_t *s1, idx_t l1,
     printf("r=%zu, c=%zu\n", l1, l2);
     #endif
     if (settings->use_pruning || settings->only_ub) {
-        max_dist = ub_euclidean(s1, l1, s2, l2);
         if (settings->only_ub) {
-            return max_dist;
+            return ub_euclidean(s1, l1, s2, l2);
         }
-        max_dist = pow(max_dist, 2);
+        // Bound in the internal representation (sum of squares), not pow(sqrt(sum), 2)
+        max_dist = euclidean_distance_sq(s1, l1, s2, l2);
     } else if (max_dist == 0) {
         max_dist = INFINITY;
     } else {
@@ -343,11 +343,11 @@ seq_t dtw_distance_ndim(seq_t *s1, idx_t l1,
     printf("r=%zu, c=%zu\n", l1, l2);
     #endif
     if (settings->use_pruning || settings->only_ub) {
-        max_dist = ub_euclidean_ndim(s1, l1, s2, l2, ndim);
         if (settings->only_ub) {
-            return max_dist;
+            return ub_euclidean_ndim(s1, l1, s2, l2, ndim);
         }
-        max_dist = pow(max_dist, 2);
+        // Bound in the internal representation (sum of squares), not pow(sqrt(sum), 2)
+        max_dist = euclidean_distance_ndim_sq(s1, l1, s2, l2, ndim);
     } else if (max_dist == 0) {
         max_dist = INFINITY;
     } else {
@@ -1066,12 +1066,12 @@ seq_t dtw_warping_paths_ndim(seq_t *wps,
 
     DTWWps p = dtw_wps_parts(l1, l2, settings);
     if (settings->use_pruning || settings->only_ub) {
+        // Bound in the internal representation (sum of squares), not pow(sqrt(sum), 2)
         if (ndim == 1) {
-            p.max_dist = ub_euclidean(s1, l1, s2, l2);
+            p.max_dist = euclidean_distance_sq(s1, l1, s2, l2);
         } else {
-            p.max_dist = ub_euclidean_ndim(s1, l1, s2, l2, ndim);
+            p.max_dist = euclidean_distance_ndim_sq(s1, l1, s2, l2, ndim);
         }
-        p.max_dist = pow(p.max_dist, 2);
         if (settings->only_ub) {
             if (keep_int_repr) {
                 return p.max_dist;
